@@ -688,6 +688,12 @@ func (e *SpecEnv) call(n *ast.CallExpr) (Value, error) {
 				return nil, err
 			}
 			return Sel("err_msg", a), nil
+		case "bytesOf":
+			t, err := e.evalTerm(n.Args[0])
+			if err != nil {
+				return nil, err
+			}
+			return App("bytes_of", e.x.w.sliceSortOfElemSort("Int"), t), nil
 		case "atoi":
 			t, err := e.evalTerm(n.Args[0])
 			if err != nil {
